@@ -148,6 +148,18 @@ fn c30_menu() -> Vec<String> {
             }
         }
     }
+    for a in ["r", "n", "b", "o"] {
+        for b2 in ["r", "n", "b", "o", "u"] {
+            menu.push(format!("EXCHANGE {a} {b2}"));
+            menu.push(format!("CONVERT {a} {b2}"));
+            menu.push(format!("LOAD {a} {b2} n"));
+            menu.push(format!("STORE {a} n {b2}"));
+        }
+        menu.push(format!("LOAD r r {a}"));
+        menu.push(format!("STORE r {a} 1.0"));
+        menu.push(format!("JUMP-UNLESS @a {a}"));
+        menu.push(format!("MEASURE 0 {a}"));
+    }
     for s in ["LOAD r r n", "LOAD r n n", "LOAD n r b", "STORE r n 1.0", "STORE r n 1", "STORE n n r", "CONVERT r n", "X 0", "JUMP-WHEN @a r", "RX(r) 0", "RX(n*%v) 0"] {
         menu.push(s.to_string());
     }
@@ -233,7 +245,7 @@ pub static C30: PropDef = PropDef {
     id: "C30",
     level: "exploration",
     engine: "sweep",
-    rule: "declared regions r:REAL n:INTEGER b:BIT o:OCTET, undeclared u. (a) every program of 1-2 (thorough 3) instructions from a ~150-instruction typed menu (every classical operator with compatible and incompatible operand types, comparisons, LOAD/STORE/CONVERT/EXCHANGE, gates): verdict == conjunction of single-instruction verdicts; invariant under reordering, duplication and the renaming r->rr, n->nn. (b) SET-PHASE / SET-SCALE / SET-FREQUENCY / SHIFT-PHASE / SHIFT-FREQUENCY x every expression of depth <= 2 over leaves {r, n, u, %v, 1, 1i, pi}: accepted iff the expression is real-valued by the recursive rule. non-trivial = program with an instruction that fails alone, or expression containing a non-real leaf",
+    rule: "declared regions r:REAL n:INTEGER b:BIT o:OCTET, undeclared u. (a) every program of 1-2 (thorough 3) instructions from a ~250-instruction typed menu (every classical operator with compatible and incompatible operand types, comparisons, LOAD/STORE/CONVERT/EXCHANGE, gates): verdict == conjunction of single-instruction verdicts; invariant under reordering, duplication and the renaming r->rr, n->nn. (b) SET-PHASE / SET-SCALE / SET-FREQUENCY / SHIFT-PHASE / SHIFT-FREQUENCY x every expression of depth <= 2 over leaves {r, n, u, %v, 1, 1i, pi}: accepted iff the expression is real-valued by the recursive rule. non-trivial = program with an instruction that fails alone, or expression containing a non-real leaf",
     assumptions: &["reference predicate ref_real(): declared REAL memory, real numbers or pi, combined by any operator / function, no variables"],
     run: |ctx| {
         let menu = c30_menu();
